@@ -311,8 +311,8 @@ def gen_cases(ctx: Check) -> list[Case]:
     cases: list[Case] = []
     small = ctx.pick(range(1, 7), range(1, 9))
     wide = ctx.pick([7, 8, 9, 13, 16, 17, 24, 31, 32, 33, 48, 63, 64], [7, 9, 10, 11, 12, 13, 15, 16, 17, 20, 24, 31, 32, 33, 40, 48, 56, 63, 64])
-    shl_max = ctx.pick(16, 33)  # widest design that includes shift_left (see build)
-    nrand = ctx.pick(2000, 100000)
+    shl_max = ctx.pick(16, 24)  # widest design that includes shift_left (see build)
+    nrand = ctx.pick(2000, 30000)
 
     # ---- scalar shifts / rotates: every value, every offset 0..w (and the larger offsets for placeholder 0)
     for w in small:
@@ -341,7 +341,7 @@ def gen_cases(ctx: Check) -> list[Case]:
         cases += _cases(g, generic_ops(w, triples), "random")
 
     # ---- vector variants: every content while n*ew is small, all placeholders, offsets 0..n (+ larger for ph 0)
-    lim = ctx.pick(6, 9)
+    lim = ctx.pick(6, 8)
     j = 0
     for ew in range(1, lim + 1):
         for n in range(1, lim // ew + 1):
@@ -362,7 +362,7 @@ def gen_cases(ctx: Check) -> list[Case]:
     ):
         d = vec_desc(n, ew, style)
         ops = []
-        for _ in range(ctx.pick(12, 150)):
+        for _ in range(ctx.pick(12, 50)):
             data = [rng.choice([rng.getrandbits(ew), rng.choice(corner_values(ew))]) for _ in range(n)]
             offs_in = sorted({0, 1, n - 1, n, rng.randrange(n + 1)})
             offs_far = sorted({n + 1, 2 * n, rng.randrange(n + 1, 1 << d["ow"])})
@@ -470,7 +470,7 @@ def run(ctx: Check):
             ctx.count("op_" + line.split()[0][3:])
     lockstep(ctx, "shifter", "C37", cases, impl, monitor, more_cases, nontrivial, procs=ctx.pick(4, None))
     outside_region(ctx)
-    ctx.note("exhaustive part: every value x offset (x placeholder) at widths 1..%d and vectors with n*ew <= %d" % (ctx.pick(6, 8), ctx.pick(6, 9)))
+    ctx.note("exhaustive part: every value x offset (x placeholder) at widths 1..%d and vectors with n*ew <= %d" % (ctx.pick(6, 8), ctx.pick(6, 8)))
 
 
 def replay(ctx: Check, body: dict):
